@@ -478,6 +478,29 @@ func (g *gen) next(st *appstate.AppState, hdr *types.Header) (txInfo, bool) {
 		tx.MaxFee = new(big.Int).Add(txFee, new(big.Int).Mul(fpg, big.NewInt(budget)))
 		tx.MaxFee.Add(tx.MaxFee, new(big.Int).Sub(fpg, big.NewInt(int64(1+r.Intn(2)))))
 	}
+	if r.Intn(7) == 0 && g.cc.cs.Mode != "block" {
+		// the boundary of the gas limit, for every kind of contract transaction: maxFee = (exact fee of the signed
+		// transaction) + {0, 1, fpg-1, fpg, fpg+1, 2*fpg-1}: the fee buys exactly 0 / 0 / 0 / 1 / 1 / 1 gas units.
+		// The fee depends on the signed size, which depends on the byte length of maxFee: fixed point.
+		deltas := []*big.Int{big.NewInt(0), big.NewInt(1), new(big.Int).Sub(fpg, big.NewInt(1)), new(big.Int).Set(fpg),
+			new(big.Int).Add(fpg, big.NewInt(1)), new(big.Int).Sub(new(big.Int).Mul(fpg, big.NewInt(2)), big.NewInt(1))}
+		delta := deltas[r.Intn(len(deltas))]
+		maxFee := new(big.Int).Add(txFee, delta)
+		for it := 0; it < 5; it++ {
+			tx.MaxFee = new(big.Int).Set(maxFee)
+			stx, err := types.SignTx(tx, g.cc.w.Keys[sender])
+			if err != nil {
+				panic(err)
+			}
+			nf := new(big.Int).Add(fee.CalculateFee(nsz, fpg, stx), delta)
+			if nf.Cmp(maxFee) == 0 {
+				break
+			}
+			maxFee = nf
+		}
+		tx.MaxFee = maxFee
+		ti.Desc += "@gas-boundary"
+	}
 	if g.cc.cs.Mode == "shadow" {
 		stx, err := types.SignTx(tx, g.cc.w.Keys[sender])
 		if err != nil {
